@@ -29,7 +29,8 @@ ASSUMPTIONS = ['polls are issued by one thread (as the agent\'s single timer doe
                '"polling continues" is decided as bounded progress: timer thread alive and a further request within '
                '100 intervals; alive but silent is inconclusive']
 REQUIRE = {'scripts_checked': 250, 'updates_applied': 800, 'gates_engaged': 40, 'inflight_overlaps': 100, 'hash_checks': 800,
-           'failed_polls': 150, 'timer_sessions': 6, 'restart_sessions': 3}
+           'failed_polls': 150, 'timer_sessions': 6, 'restart_sessions': 3,
+           'preempt_points': 80, 'preempt_overtakes': 8}
 
 HOST = '''"""c12 probe"""
 
@@ -47,7 +48,7 @@ def probe(x):
 def plan(tier, seed):
     n = {'quick': 1, 'thorough': 15}[tier]
     return split_seeds('c%s' % seed, 320 * n, 12, 'script') + split_seeds('t%s' % seed, 8 * n, 4, 'timer') + \
-        split_seeds('r%s' % seed, 4 * n, 4, 'restart')
+        split_seeds('r%s' % seed, 4 * n, 4, 'restart') + split_seeds('e%s' % seed, 12 * n, 12, 'preempt')
 
 
 def fresh_config(custom):
@@ -399,6 +400,148 @@ def case_timer(seed, out, spec, wd):
     out.case({'kinds': kinds}, nontrivial=True, sample=witness)
 
 
+PAIRS = [('update', 'update'), ('register', 'unregister'), ('update', 'register'), ('register', 'update'),
+         ('unregister', 'update'), ('update', 'unregister'), ('register', 'register')]
+
+
+def case_preempt(seed, out, spec, wd):
+    """Two configuration changes in flight on the two workers; the first one is pre-empted at its k-th line
+    (every k is enumerated) until the second one has been applied. The outcome at quiescence must not depend on k."""
+    from deep.api.resource import Resource
+    from deep.config.tracepoint_config import ConfigUpdateListener
+    from deep.grpc import convert_response
+    from deep.processor.trigger_handler import TriggerHandler
+    from deepproto.proto.tracepoint.v1.tracepoint_pb2 import TracePointConfig
+    r = Rng('c12e', seed)
+    hpath = os.path.join(wd, 'c12probe.py')
+    if not os.path.exists(hpath):
+        with open(hpath, 'w') as f:
+            f.write(HOST)
+    base = os.path.basename(hpath)
+    marks = hostframe.markers(hpath)
+    lines = [marks['l%d' % i] for i in range(1, 7)]
+    mod = hostframe.load(hpath)
+    pair = PAIRS[int(str(seed).split(':')[-1]) % len(PAIRS)]
+    target_file = os.path.join('deep', 'config', 'tracepoint_config.py')
+    points = overtakes = 0
+    a = {'fire_count': '-1', 'fire_period': '0'}
+    for k in range(0, 16):
+        config = fresh_config({})
+        config.resource = Resource.create()
+        applied = []
+        cv = threading.Condition()
+
+        class After(ConfigUpdateListener):
+            def config_change(self, ts, old_hash, current_hash, old_config, new_config):
+                with cv:
+                    applied.append(threading.get_ident())
+                    cv.notify_all()
+
+        push = RecordingPush(None)
+        handler = TriggerHandler(config, push)
+        config.add_listener(After())
+        th = tracking_handler()
+        config.set_task_handler(th)
+        rig = Rig(parts=(config, handler, push), host_dir=wd)
+        push.rig = rig
+        svc = config.tracepoints
+        # a settled starting point: one service tracepoint and one registration
+        svc.update_new_config(1, 'h0', convert_response([TracePointConfig(ID='s0', path=base, line_number=lines[0], args=a)]))
+        reg0 = svc.add_custom(base, lines[1], dict(a), ['"reg-0"'], [])
+        _settle(th)
+        model_service, live = {'s0'}, {'reg-0'}
+        first = {'tid': None, 'count': 0, 'fired': False, 'overtaken': False}
+        main_tid = threading.get_ident()
+
+        def on_line(code, line):
+            tid = threading.get_ident()
+            if tid == main_tid or code.co_name not in ('update_listeners',):
+                return None
+            if first['tid'] is None:
+                first['tid'] = tid
+            if tid != first['tid']:
+                return None
+            n = first['count']
+            first['count'] = n + 1
+            if n == k and not first['fired']:
+                first['fired'] = True
+                n0 = len([t for t in applied if t != tid])
+                end = time.monotonic() + 0.15
+                with cv:
+                    while len([t for t in applied if t != tid]) == n0:
+                        left = end - time.monotonic()
+                        if left <= 0:
+                            break
+                        cv.wait(left)
+                    first['overtaken'] = len([t for t in applied if t != tid]) > n0
+            return None
+
+        def do(op, tag):
+            if op == 'update':
+                tp = TracePointConfig(ID='s-%s' % tag, path=base, line_number=lines[2 + (tag == 'b')], args=a)
+                svc.update_new_config(5, 'h-%s' % tag, convert_response([tp]))
+                model_service.clear()
+                model_service.add('s-%s' % tag)
+            elif op == 'register':
+                svc.add_custom(base, lines[4 + (tag == 'b')], dict(a), ['"reg-%s"' % tag], [])
+                live.add('reg-%s' % tag)
+            else:
+                svc.remove_custom(reg0)
+                live.discard('reg-0')
+
+        applied_before = len(applied)
+        with inject.LineInjector(lambda f: f.endswith(target_file), on_line):
+            do(pair[0], 'a')
+            # the second change is issued as soon as the first task has started (or at once if it never shows up)
+            end = time.monotonic() + 0.2
+            while first['tid'] is None and time.monotonic() < end:
+                time.sleep(0.0005)
+            do(pair[1], 'b')
+            if not _settle(th):
+                out.inconc('C12 preempt: updates did not settle')
+                _close(th)
+                return
+        if first['fired']:
+            points += 1
+            if first['overtaken']:
+                overtakes += 1
+        n0 = len(push.pushed)
+        res, exc = rig.run(mod.probe, 1)
+        acted = set()
+        for rec in push.pushed[n0:]:
+            tp = rec.snapshot.tracepoint
+            ws = [w.strip('"') for w in tp.watches if w.startswith('"reg-')]
+            acted.add(ws[0] if ws else tp.id)
+        rig.cleanup()
+        _close(th)
+        want = set(model_service) | set(live)
+        if acted != want:
+            stale = acted - want
+            mech = 'convergence:stale-update-applied-last' if stale else 'convergence:registration-lost'
+            out.violation(mech, '%s then %s with the first task pre-empted at its line event %d%s: the agent acts on %s, '
+                                'the latest state is %s' % (pair[0], pair[1], k, ' (overtaken by the second)' if
+                                                            first['overtaken'] else '', sorted(acted), sorted(want)),
+                          {'pair': pair, 'k': k, 'overtaken': first['overtaken']}, replay_spec(spec, seed))
+            break
+        if not first['fired'] and k > first['count']:
+            break   # the first task has fewer line events than k: enumeration complete
+    out.count('preempt_points', points)
+    out.count('preempt_overtakes', overtakes)
+    out.case({'pair': pair, 'seed': str(seed)}, nontrivial=points > 0,
+             sample={'first_then_second': pair, 'preemption_points_enumerated': points,
+                     'second_task_overtook_first': overtakes})
+
+
+def _settle(th, timeout=20):
+    end = time.monotonic() + timeout
+    while True:
+        if not [f for f in list(th.futures) if not f.done()]:
+            return True
+        if time.monotonic() > end:
+            return False
+        time.sleep(0.001)
+
+
 def case_restart(seed, out, spec, wd):
     """Agent shut down and started again in one process: the new agent must act on the service's configuration."""
     from vf import e2e
@@ -465,6 +608,8 @@ def run_shard(spec, out):
                 case_script(seed, out, spec, wd.path)
             elif spec['kind'] == 'restart':
                 case_restart(seed, out, spec, wd.path)
+            elif spec['kind'] == 'preempt':
+                case_preempt(seed, out, spec, wd.path)
             else:
                 case_timer(seed, out, spec, wd.path)
     finally:
